@@ -5,6 +5,9 @@ V = "/verif"
 R_NOTE = "Trusts the Go reference model to state the property (it is ~100 lines written from the statement, not from the implementation) and the instrumented node lambdas to report executions faithfully; native goroutine scheduling is not controlled here (completion-order independence is C03's business); bounds as stated in the evidence rule."
 S_NOTE = "Trusts the source rewriter + vsched shim to model Go channel/select/mutex/once/atomic semantics; sequential consistency at synchronisation granularity (node bodies are atomic between explicit yields); happens-before state caching assumes the protocol code is data-race free (races are the business of the separate free-running -race pass); map iteration order restricted to ascending and descending (both explored)."
 checks = {
+ "C13": dict(engine="R", technique="exhaustive enumeration of failure injections (structure towers x failing position x failure kind x native paradigm x calling paradigm, tools, merged streams, step limit, cancellation) each executed on the implementation; crash attribution by journal, hangs by watchdog",
+   text="Every combination within the bounds of graph kind (Pregel, all-predecessor, Workflow, Chain) and shape, nesting depth 0-2, failing node position, failure kind (sentinel, typed error, panic(string), panic(error)), node paradigm and calling paradigm, plus parallel failures, tools inline and in goroutines, panicking converters in merged streams, step limit and cancellation, is run; the error must be non-nil, match errors.Is/As for the original, name the node path outermost-to-innermost, match the max-steps sentinel and context.Canceled, and a panic must surface as an error with the process alive. Right level: a finite fault-injection space over deterministic code.",
+   note="Node-path attribution of error items that arrive mid-stream is counted but not judged (the statement is silent on it); panics in free-running goroutines are attributed through a journal written before each case; verdicts never depend on completion order.", design="3/C13"),
  "C14": dict(engine="R", technique="exhaustive enumeration of all chunk sequences up to the length bound over per-type alphabets; every sequence and every split point executed on the real concatenation entry points; independent reference model for message fields",
    text="All chunk sequences (length <=3/4 quick, <=4/5 thorough) over alphabets of strings, messages (role/content, ids, response meta, extras incl. nil and nested maps, tool-call fragments), message lists, maps, registered and unregistered custom types are concatenated through ConcatMessages, ConcatMessageStream, the generic ConcatItems and a compiled graph; oracle: never a panic, deterministic over repetitions, invariant under every re-chunking split, text/tool-call arguments in arrival order and fragments merged by index. Right level: concatenation is a pure function over a finite alphabet of short sequences.",
    note="Trusts the canonical rendering used to compare results and the small independent model for message fields; alphabets are factored into aspect families plus pairwise mixes rather than one full product; error texts are not compared.", design="3/C14"),
